@@ -296,6 +296,90 @@ static inline int post_verif_repeat(sv_t shape, sv_t idx, unsigned long repeats,
   return HN_LEN(ret) == d && IMPLIES(g < d, HN_AT(ret, g) == RPX[g] && HN_AT(ret, g) < SV_AT(shape, g));
 }
 
+/* =============================================================== repeat (PER-ELEMENT repeats, integer axis)
+ * np.repeat(a, repeats, axis) with len(repeats) == a.shape[axis] (ValueError otherwise; nmtools: assertion, compiled out under NDEBUG):
+ *   out.shape[axis] = sum(repeats), the other extents unchanged;
+ *   out[..., i, ...] = a[..., j, ...] with j the unique position such that cumsum(repeats)[j-1] <= i < cumsum(repeats)[j]
+ *   (element j of the axis occupies repeats[j] consecutive places; entries equal to 0 drop the element). */
+GHOST_ARR(unsigned long, RCS, 10)   /* RCS[t] = repeats[0] + ... + repeats[t-1]  (RCS[0] = 0; entries beyond len(repeats) add 0) */
+GHOST(unsigned long, RJ)            /* the source position along the axis */
+#define C04_REPEAT_MAX (1UL << 60)  /* per-entry bound: the sum of at most 8 entries does not wrap */
+static inline int trace_RCS(sv_t repeats)
+{
+  int ok = GHOST_DEF(RCS[0], 0UL);
+  for (unsigned long t = 0; t < CAP; t++)
+    ok = ok && GHOST_DEF(RCS[t + 1], RCS[t] + (t < SV_LEN(repeats) ? SV_AT(repeats, t) : 0UL));
+  return ok;
+}
+/* independent definitions used by the postconditions */
+static inline unsigned long spec_repeats_cumsum(sv_t repeats, unsigned long k)      /* repeats[0] + ... + repeats[k-1] */
+{
+  unsigned long acc = 0UL, r = 0UL;
+  for (unsigned long t = 0; t < CAP; t++) {
+    if (t == k) r = acc;
+    acc += (t < SV_LEN(repeats) ? SV_AT(repeats, t) : 0UL);
+  }
+  return k >= CAP ? acc : r;
+}
+static inline int repeats_small(sv_t repeats)
+{
+  int ok = 1;
+  for (unsigned long t = 0; t < CAP; t++)
+    if (t < SV_LEN(repeats) && SV_AT(repeats, t) > C04_REPEAT_MAX) ok = 0;
+  return ok;
+}
+/* first position whose cumulative count exceeds x (0 if there is none) */
+static inline unsigned long spec_repeat_src(sv_t repeats, unsigned long x)
+{
+  unsigned long acc = 0UL, j = 0UL; int found = 0;
+  for (unsigned long t = 0; t < CAP; t++) {
+    acc += (t < SV_LEN(repeats) ? SV_AT(repeats, t) : 0UL);
+    if (!found && t < SV_LEN(repeats) && x < acc) { found = 1; j = t; }
+  }
+  return j;
+}
+static inline int pre_verif_shape_repeat_each(sv_t shape, sv_t repeats, int axis)
+{
+  unsigned long d = SV_LEN(shape), ax = C04_NAX(axis, d);
+  int ok = d <= CAP && C04_AXIS_OK(axis, d) && SV_LEN(repeats) <= CAP;
+  if (ok) ok = ok && SV_LEN(repeats) == SV_AT(shape, ax) && repeats_small(repeats) && trace_RCS(repeats);
+  for (unsigned long k = 0; k < CAP; k++)
+    if (ok && k < d) ok = ok && GHOST_DEF(RSH[k], k == ax ? RCS[SV_LEN(repeats)] : SV_AT(shape, k));
+  return ok;
+}
+static inline int post_verif_shape_repeat_each(sv_t shape, sv_t repeats, int axis, hn_t ret)
+{
+  unsigned long d = SV_LEN(shape), ax = C04_NAX(axis, d);
+  return HN_LEN(ret) == d && IMPLIES(g < d, HN_AT(ret, g) == RSH[g])
+      && HN_AT(ret, ax) == spec_repeats_cumsum(repeats, SV_LEN(repeats))
+      && IMPLIES(g < d && g != ax, HN_AT(ret, g) == SV_AT(shape, g));
+}
+static inline int pre_verif_repeat_each(sv_t shape, sv_t idx, sv_t repeats, int axis)
+{
+  unsigned long d = SV_LEN(shape), ax = C04_NAX(axis, d);
+  int ok = d <= CAP && SV_LEN(idx) == d && C04_AXIS_OK(axis, d) && SV_LEN(repeats) <= CAP;
+  if (ok) ok = ok && SV_LEN(repeats) == SV_AT(shape, ax) && repeats_small(repeats) && trace_RCS(repeats)
+                  && GHOST_DEF(RJ, spec_repeat_src(repeats, SV_AT(idx, ax)));
+  for (unsigned long k = 0; k < CAP; k++)
+    if (ok && k < d) {
+      /* idx inside the repeated shape */
+      ok = ok && SV_AT(idx, k) < (k == ax ? RCS[SV_LEN(repeats)] : SV_AT(shape, k));
+      ok = ok && GHOST_DEF(RPX[k], k == ax ? RJ : SV_AT(idx, k));
+    }
+  return ok;
+}
+static inline int post_verif_repeat_each(sv_t shape, sv_t idx, sv_t repeats, int axis, hn_t ret)
+{
+  unsigned long d = SV_LEN(shape), ax = C04_NAX(axis, d), j = HN_AT(ret, g < d ? g : 0UL);
+  return HN_LEN(ret) == d && IMPLIES(g < d, HN_AT(ret, g) == RPX[g] && HN_AT(ret, g) < SV_AT(shape, g))
+      && IMPLIES(g < d && g != ax, HN_AT(ret, g) == SV_AT(idx, g))
+      /* numpy: along the axis, the unique j with cumsum[j-1] <= i < cumsum[j]   (g is any position: here the axis) */
+      && IMPLIES(g < d && g == ax, j < SV_LEN(repeats) && spec_repeats_cumsum(repeats, j) <= SV_AT(idx, ax)
+                                   && SV_AT(idx, ax) < spec_repeats_cumsum(repeats, j + 1UL));
+}
+/* loop-contract vocabulary (expanded inside the instantiated functions only) */
+#define C04_CUMSUM_DONE(k) (!((k) < i && (k) < array->size_) || ret.buffer_._M_elems[k] == RCS[(k) + 1UL])
+
 /* =============================================================== take (1-d index list, integer axis)
  * np.take(a, ind, axis): out.shape = a.shape with the axis extent replaced by len(ind);
  * out[.., j, ..] = a[.., ind[j], ..]; entries of ind must satisfy -n <= ind[j] < n, negative entries count from the end. */
